@@ -73,9 +73,9 @@ def setups(thorough):
 
 def callback_sets():
     log = lambda: LoggingCallback(Rec(), name="verif")
-    def bar():
+    def bar(total=None):
         import os
-        b = ProgressBarCallback(None, name="verif")
+        b = ProgressBarCallback(total, name="verif")
         try:
             pb = b.progress_bar.progress_bar
             pb.console.file = open(os.devnull, "w")   # display only; not part of any checked behaviour
@@ -90,6 +90,8 @@ def callback_sets():
         "progress_bar": bar(),
         "list(logging,progress_bar)": CallbackList(callbacks=[log(), bar()]),
         "nested(list(logging),progress_bar)": CallbackList(callbacks=[CallbackList(callbacks=[log()]), bar()]),
+        # a SIZED progress bar whose total is smaller than the run (a bar reused for a longer stage; off-policy warm-up steps also count towards it)
+        "progress_bar(total_timesteps=1)": bar(1),
     }
 
 
@@ -272,6 +274,33 @@ def check_learn_observer(ck, aname, algo, env, mkpol):
         it = Interp()
         S = tr.symbols(it)
         outs[cname] = (tr, it, S, tr.run(it, S))
+    # two iterations, with and without a sized progress bar that is full after the first step: an observer's own bookkeeping must not gate training
+    T2 = 2 * T
+    two = {}
+    for cname in ("none", "progress_bar(total_timesteps=1)"):
+        cb2 = callback_sets()[cname]
+        with stubs.prng_stubs():
+            tr2 = trace(lambda env, pol, k: algo.learn(env, pol, T2, key=k, callback=cb2), env, pol, jr.key(0), argnames=["env", "pol", "key"], label=f"{aname}.learn[{cname}, two iterations]")
+        it2 = Interp()
+        S2 = tr2.symbols(it2)
+        two[cname] = (tr2, it2, S2, tr2.run(it2, S2))
+    (ta, ia, Sa, oa), (tb, ib, Sb, ob_) = two["none"], two["progress_bar(total_timesteps=1)"]
+
+    def rp_sized(res):
+        from jaxsmt.uf import GenericWorld, world
+        pols = []
+        for cname in ("none", "progress_bar(total_timesteps=1)"):
+            cbx = callback_sets()[cname]
+            jax.clear_caches()
+            try:
+                with world(GenericWorld(seed=5)):
+                    pols.append(jax.block_until_ready(algo.learn(env, pol, T2, key=jr.key(3), callback=cbx)))
+            finally:
+                jax.clear_caches()
+        la, lb = ([np.asarray(x, np.float64) for x in jax.tree_util.tree_leaves(p_) if eqx.is_inexact_array(x)] for p_ in pols)
+        differ = [i for i, (a, b) in enumerate(zip(la, lb)) if not np.array_equal(a, b, equal_nan=True)]
+        return bool(differ), {"function": f"{aname}.learn, {T2} timesteps", "parameter_leaves_that_differ_with_a_sized_progress_bar_attached": len(differ)}
+    ck.prove(f"observer.{aname}.learn_two_iterations.sized_progress_bar", stubs.contracts(ia) + stubs.contracts(ib), conj([eq_arr(oa[n], ob_[n]) for n in oa]), timeout=120, replay=rp_sized)
     (tr0, it0, S0, o0), (tr1, it1, S1, o1) = outs["none"], outs["list(logging,progress_bar)"]
     goal = conj([eq_arr(o0[n], o1[n]) for n in o0])
     def rp_learn(res):
